@@ -907,7 +907,13 @@ func (c *Client) q(m *spb.ModifyRequest) {
 	defer c.awaiting.RUnlock()
 
 	if !chIsClosed(c.sendExitCh) {
-		c.qs.modifyCh <- m
+		// The sender goroutine can exit whilst we are blocked waiting for space
+		// in the channel, in which case nothing reads from it any longer, so do not
+		// block forever.
+		select {
+		case c.qs.modifyCh <- m:
+		case <-c.sendExitCh:
+		}
 	}
 }
 
